@@ -39,7 +39,7 @@ RULE = ("shape cases: for every public callable x base configuration (each docum
         "helpers on pattern x shape; a case is non-trivial unless it is a k=0 stack; distinct = distinct spec")
 TRUSTED = ["NumPy raises ValueError (not a silent broadcast) where a callable has no explicit check and is marked impl-raises",
            "purity is observed at run time only (byte-wise comparison of arguments and of self's arrays, write-protected re-run)",
-           "the value builders give valid values for documented shapes (unit normals, in-range indices, positive sizes)"]
+           "the value builders give valid values for documented shapes (unit normals, in-range indices, positive sizes, triangles of positive area for tri.sample); other degenerate configurations (coincident points) can occur and are judged only by shape / purity / stack clauses"]
 ASSUMPTIONS = ["array arguments are float64 / int64 / bool ndarrays; Python lists and other array-likes are not enumerated",
                "CompositeTransform / CoordinateManager builder methods append to self by design: purity for them means the "
                "matrices already stored are unchanged"]
